@@ -323,10 +323,17 @@ pub async fn login_to(t: &mut Tcp, intent: i32, host: &str, port: u16, name: &st
 /// Configuration phase after Login Success: acknowledges, optionally sends Client Information, echoes keep-alives
 /// (if `echo`), until Transfer / Disconnect / EOF / `wait`. Returns a JSON summary.
 pub async fn configuration(t: &mut Tcp, send_info: bool, echo: bool, wait: Duration) -> Value {
+    configuration_loc(t, if send_info { Some("en_US") } else { None }, echo, wait).await
+}
+
+/// `configuration` reporting the given locale in Client Information; a Disconnect's reason is returned as `reason`
+/// (the text of a TAG_String component, or "compound" for anything else).
+pub async fn configuration_loc(t: &mut Tcp, locale: Option<&str>, echo: bool, wait: Duration) -> Value {
     let _ = t.send_frame(3, &[]).await;
-    if send_info {
-        let _ = t.send_frame(0, &body_client_info("en_US")).await;
+    if let Some(l) = locale {
+        let _ = t.send_frame(0, &body_client_info(l)).await;
     }
+    let mut reason = json!("none");
     let deadline = Instant::now() + wait;
     let mut cookies = vec![];
     let mut keepalives = 0;
@@ -355,8 +362,14 @@ pub async fn configuration(t: &mut Tcp, send_info: bool, echo: bool, wait: Durat
                 end = "transfer".into();
                 break;
             }
-            Recv::Frame(2, _) => {
+            Recv::Frame(2, body) => {
                 end = "disconnect".into();
+                reason = if body.len() >= 3 && body[0] == 8 {
+                    let n = u16::from_be_bytes([body[1], body[2]]) as usize;
+                    body.get(3..3 + n).and_then(crate::refcodec::mutf8_decode).map(|s| json!(s)).unwrap_or(json!("undecodable"))
+                } else {
+                    json!("compound")
+                };
                 break;
             }
             Recv::Frame(_, _) => {}
@@ -367,5 +380,5 @@ pub async fn configuration(t: &mut Tcp, send_info: bool, echo: bool, wait: Durat
             Recv::Timeout => break,
         }
     }
-    json!({"end": end, "transfer": transfer, "cookies": cookies, "keepalives": keepalives, "at_ms": t.ms()})
+    json!({"end": end, "transfer": transfer, "cookies": cookies, "keepalives": keepalives, "at_ms": t.ms(), "reason": reason})
 }
